@@ -18,6 +18,6 @@ def check_c11(pid, tier, replay):
     from props import session
     g = gens(tier) + receiver.gens(tier)[:1] + [("endpoint/SessGen", "endpoint/SessGen_e.cfg"), ("endpoint/SettleGen", "endpoint/SettleGen_sw.cfg")]
     # routing of incoming dispositions to the link they belong to shows as the send resolving, with its own outcome
-    endpoint.run(pid, tier, replay, ("C11_", "C02_OwnOutcome", "C02_Resolves_Q"), [("endpoint/Ids", None)], g,
+    endpoint.run(pid, tier, replay, ("C11_", "C02_OwnOutcome", "C02_Resolves_Q", "C12_NoSpontaneousError"), [("endpoint/Ids", None)], g,
                  RULE + "; plus the RecvGen (routing of incoming deliveries), link-split SessGen scripts and the SettleGen disposition scripts with the peer's handles for the two links "
                         "being the endpoint's handles swapped")
